@@ -9,3 +9,4 @@ import FuraxProofs.Props.C05
 #print axioms Furax.C05.kernel_shapes_honest
 #print axioms Furax.C05.promoted_dtype_is_join
 #print axioms Furax.C05.narrower_parameter_keeps_dtype
+#print axioms Furax.C05.reduce_keeps_structures
